@@ -89,3 +89,26 @@ Theorem C12_load_behaves : forall (R : Type) (run : fn -> R) c f,
   match decode_fn c (enc_fn c f) with Some (g, _) => Some (run g) | None => None end = Some (run f).
 Proof. exact load_behaves. Qed.
 Print Assumptions C12_load_behaves.
+
+(* ---- known finding `load-crash:corrupt:instr-index:*`: the loader does not check the references an
+   instruction makes (string / inner function / jump target); the decoder modelled after it accepts them. *)
+Theorem C12_decode_checks_refs_refuted :
+  exists c bs f r, decode_fn c bs = Some (f, r) /\ wf_fnb f = true /\ refs_ok f = false.
+Proof. exact decode_checks_refs_refuted. Qed.
+Print Assumptions C12_decode_checks_refs_refuted.
+
+(* ... the decoder with the reference check (the complement): accepts exactly the well-referenced encodings *)
+Theorem C12_checked_decode_sound : forall c bs f r,
+  checked_decode c bs = Some (f, r) -> refs_ok f = true /\ decode_fn c bs = Some (f, r).
+Proof. exact checked_decode_sound. Qed.
+Print Assumptions C12_checked_decode_sound.
+
+Theorem C12_checked_decode_complete : forall c f r,
+  wf_fnb f = true -> refs_ok f = true -> checked_decode c (enc_fn c f ++ r) = Some (f, r).
+Proof. exact checked_decode_complete. Qed.
+Print Assumptions C12_checked_decode_complete.
+
+Theorem C12_checked_decode_prefix_fails : forall c f p q,
+  wf_fnb f = true -> enc_fn c f = p ++ q -> q <> [] -> checked_decode c p = None.
+Proof. exact checked_decode_prefix_fails. Qed.
+Print Assumptions C12_checked_decode_prefix_fails.
